@@ -14,7 +14,11 @@ Definition closed (s : store) : Prop :=
 
 (* the backend replaces documents atomically in this variant of the code *)
 Definition safe (v : variant) (b : backend) : bool :=
-  match b with BDict => true | BFs => fs_put_is_atomic v | BZip => zip_update_is_atomic v end.
+  match b with
+  | BDict => true
+  | BFs => fs_put_is_atomic v
+  | BZip => zip_update_is_atomic v && negb (zip_new_entry_in_place v)
+  end.
 
 (* a storage that was only modified through PulseStorage: the archive exists, the contents are closed and every
    cached object is in the backend *)
